@@ -26,7 +26,7 @@ RULE = ("Hypothesis draws an invertible, well-conditioned operator tree over eve
 ASSUMPTIONS = [
     "direct paths: |A x - b| <= 1e3 n eps (|A||x| + |b|) with eps of the coarsest dtype in the tree; inverse matrix to 1e3 eps cond; iterative paths: |A x - b| <= 20 tol |b| cond-free plus the direct bound",
     "in-contract refusals (AssertionError: CG / Cholesky on operators not declared PSD) are tallied, not failures",
-    "cases contaminated by open finding F-C05-scalar (a scalar multiple falsely reporting PSD / Unitary changes the selected path) are counted inconclusive",
+    "cases contaminated by open finding F-C05-scalar (a scalar multiple falsely reporting PSD / SelfAdjoint changes the selected path) are counted inconclusive; a false Unitary report is harmless here (the Unitary rule of inv is never selected) and such cases are judged",
 ]
 AVOID = set()
 ALGS = ["omitted", "Auto", "LU", "Cholesky", "CG", "GMRES"]
@@ -35,6 +35,25 @@ ALGS = ["omitted", "Auto", "LU", "Cholesky", "CG", "GMRES"]
 def configure(tier, opts):
     AVOID.clear()
     AVOID.update(TP.load_avoid(ID, opts, base=("dup_index", )))
+
+
+def awkward_tridiag(g, n, dt="f8"):
+    """non-singular, well-conditioned tridiagonal matrices whose leading principal minors vanish (or nearly): elimination
+    without row exchanges breaks down on them although the matrix is harmless"""
+    n = max(2, n - n % 2)  # even size
+    kind = g.pick(["zero_diag", "tiny_first", "ones_block"])
+    al = np.ones(n - 1)
+    ga = np.ones(n - 1)
+    if kind == "zero_diag":       # path-graph / hopping matrix: eigenvalues 2 cos(k pi / (n + 1)), none zero for even n
+        be = np.zeros(n)
+    elif kind == "tiny_first":
+        be = 3.0 + np.arange(n) % 2
+        be[0] = 1e-11
+    else:                          # leading block [[1, 1], [1, 1]]
+        be = 3.0 + np.arange(n) % 2
+        be[0] = be[1] = 1.0
+    sg = np.where(np.arange(n - 1) % 3 == 0, -1.0, 1.0)
+    return {"k": "tridiag", "al": gen.enc((al * sg).astype(gen.NPDT[dt])), "be": gen.enc(be.astype(gen.NPDT[dt])), "ga": gen.enc(ga.astype(gen.NPDT[dt]))}
 
 
 @st.composite
@@ -56,6 +75,18 @@ def cases(draw, tier):
     alg = g.pick(ALGS)
     trait = "pd" if alg in ("Cholesky", "CG") else g.pick(["inv", "inv", "pd", "unitary"])
     tree = g.sq(n, trait, depth)
+    if trait != "pd" and g.integer(1, 12) == 1:
+        tree = awkward_tridiag(g, n, g.pick(["f8", "c16"]))
+        m = IR.denote(tree).shape[0]
+        if g.boolean():
+            tree = g.pick([lambda t: {"k": "kron", "via": "ctor", "ch": [t, g.t_inv(2, 0)]}, lambda t: {"k": "bd", "ch": [t, g.t_inv(2, 0)], "mult": None},
+                           lambda t: {"k": "prod", "via": "op", "ch": [t, g.t_inv(m, 0)]}])(tree)
+        n = IR.denote(tree).shape[0]
+    if trait == "unitary" and alg in ("omitted", "Auto", "LU") and g.integer(1, 3) == 1:
+        # a scalar multiple of a declared-unitary operator (|c| != 1), possibly transposed: its inverse is U^H / c
+        tree = {"k": "scale", "c": {"t": "float", "v": g.pick([2.0, 0.25, -3.0])}, "side": g.pick("lr"), "ch": [tree]}
+        if g.boolean():
+            tree = {"k": g.pick(["T", "H"]), "ch": [tree]}
     if g.integer(1, 12) == 1:
         # operators within 1e-6 of the identity / of a unit-diagonal triangular matrix (nothing is "close enough" to a
         # special case): Triangular with diagonal 1 + O(1e-6), or I + 1e-6 S declared PSD
@@ -184,7 +215,8 @@ def check(case, out):
     out.label(*TP.tree_labels(tree, R))
     out.label("alg:" + case["alg"], "trait:" + case["trait"])
     A = IR.build(tree)
-    if TP.scalar_invalidated_annotations(A) & {"PSD", "Unitary", "SelfAdjoint"} or TP.contaminated_by_scalar(tree, ("PSD", "Unitary", "SelfAdjoint")):
+    # (a false Unitary report of a scalar multiple is not excluded: no inverse rule that is ever selected reads it)
+    if TP.scalar_invalidated_annotations(A) & {"PSD", "SelfAdjoint"} or TP.contaminated_by_scalar(tree, ("PSD", "SelfAdjoint")):
         out.inconclusive += 1
         out.label("contaminated:F-C05-scalar")
         return
@@ -281,9 +313,9 @@ def check(case, out):
     for sub, fn, ref in (("inv_T", lambda: np.asarray(Ainv.T.to_dense()), Minv.T), ("inv_H", lambda: np.asarray(Ainv.H.to_dense()), Minv.conj().T)):
         Dt = guarded(sub, fn)
         if Dt is not None and (Dt.shape != (n, n) or not np.all(np.isfinite(Dt)) or np.linalg.norm(Dt - ref, 2) > itol):
-            out.fail(sub, site, "value", f"{np.linalg.norm(Dt - ref, 2) if Dt.shape == (n, n) else Dt.shape}")
+            out.fail(sub, site, "value", f"{np.linalg.norm(Dt - ref, 2) if Dt.shape == (n, n) and np.all(np.isfinite(Dt)) else ('non-finite' if Dt.shape == (n, n) else Dt.shape)}")
     y = guarded("left", lambda: np.asarray(bl @ Ainv))
     if y is not None:
         yref = bl.astype(np.complex128) @ Minv if (bl.dtype.kind == "c" or M.dtype.kind == "c") else bl @ Minv
         if y.shape != yref.shape or not np.all(np.isfinite(y)) or np.linalg.norm(y - yref) > itol * max(np.linalg.norm(bl), 1e-300) * np.sqrt(max(1, y.size)):
-            out.fail("left", site, "value", f"|b @ inv(A) - b inv(M)| = {np.linalg.norm(y - yref) if y.shape == yref.shape else y.shape}")
+            out.fail("left", site, "value", f"|b @ inv(A) - b inv(M)| = {np.linalg.norm(y - yref) if y.shape == yref.shape and np.all(np.isfinite(y)) else ('non-finite' if y.shape == yref.shape else y.shape)}")
